@@ -15,6 +15,8 @@ CONSTANTS
     MaxSpans = 2
     IncomingKinds <- MC_IncPartial
     WithLazy = TRUE
+    WithCancel = TRUE
+    CancelOwnIds = FALSE
     CtxForms <- MC_Forms
     Emit = TRUE
 VIEW sview
